@@ -161,3 +161,17 @@ def replay_dir(prop: str) -> str:
     d = os.path.join(core.VERIF_DIR, "replays", prop)
     os.makedirs(d, exist_ok=True)
     return d
+
+
+def wall_cap(tier: str) -> float:
+    """Safety net only: absolute time after which workers stop starting new runs (the count of
+    runs can only go down, a verdict never changes).  VERIF_WALL_CAP=<seconds> overrides."""
+    try:
+        cap = float(os.environ.get("VERIF_WALL_CAP") or (1200 if tier == "quick" else 6000))
+    except ValueError:
+        cap = 1200.0
+    return time.time() + cap
+
+
+def past(deadline) -> bool:
+    return deadline is not None and time.time() > deadline
